@@ -5,6 +5,24 @@ HERE = os.path.dirname(os.path.dirname(os.path.abspath(__file__)))
 
 # id -> (category, technique, level text, level note, design ref)
 CHECKS = {
+ "C02": ("exploration", "property-based testing (proptest): differential against an independent strict ESRI decoder/validator",
+         "Every .shp left behind by the writer (drop / finalize / write_shapes, with and without index destination, n>=0) must be accepted by a strict decoder written from the whitepaper that shares no code with the library, and decode to the geometry handed in. Bounded random exploration.",
+         "Trusted: vlib/refcodec.rs (self-tested at start-up against the third-party fixtures in /repo/tests/data: encode(decode(f)) == f).", "DESIGN.md §3 C02, §2.1"),
+ "C04": ("exploration", "property-based testing (proptest): independent parse of the .shx against record offsets found by the independent .shp decoder, plus reader consequences",
+         "Index entries, index header and the reader-level consequences (count, random access == sequential, out-of-range, size_hint) are checked for generated sequences of unequal record sizes, in memory and via from_path. Bounded random exploration.",
+         "Trusted: independent decoder for record offsets.", "DESIGN.md §3 C04"),
+ "C05": ("exploration", "property-based testing (proptest): reference fold oracle with planted extremes",
+         "Accessor boxes, record box bytes and header box bytes are compared numerically with a plain </> fold over generated vertex sets in which minima/maxima are planted at generated positions with special values (+-inf, f64::MAX/MIN, +-0).",
+         "Trusted: the reference fold; NaN excluded as the property states; no claim for multipatch header M or files with no-data measures.", "DESIGN.md §3 C05"),
+ "C06": ("exploration", "property-based testing (proptest) with the 13x14 (requested, actual) type matrix enumerated completely on every generated file",
+         "read_as::<S>() is compared with convert_shapes_to_vec_of::<S>(read()) for every requested type on every generated file; identity chain of type reports and the enum round trip are checked for every generated value.",
+         "Trusted: variant_ty() (a match on the enum variant) as the independent statement of a value's type.", "DESIGN.md §3 C06"),
+ "C18": ("exploration", "bounded-exhaustive grid enumeration + proptest for larger shapes; independent whitepaper size formula",
+         "size_in_bytes() == bytes emitted by write_to == independent layout formula on a complete (parts x length pattern) grid and on random larger shapes; record content-length word == (size+4)/2.",
+         "Trusted: the size formula transcribed from the whitepaper.", "DESIGN.md §3 C18"),
+ "C19": ("exploration", "exhaustive enumeration of all 2^32 codes against an independent table",
+         "ShapeType::from / as i32 / predicates / Display checked for every 32-bit code (complete); the from-a-file path (Header::read_from, Shape::read_from) exhaustively in thorough and on a structured + generated subset in quick.",
+         "Trusted: the 14-row table in vlib/model.rs.", "DESIGN.md §3 C19"),
  "C01": ("exploration", "property-based testing (proptest, seeded, shrinking): write->read round trip with an explicit normalisation model",
          "Generated shape sequences of all 13 types are written through ShapeWriter and read back through every route (generic/typed x iterate/collect/random access x with/without .shx x memory/disk); an oracle built from accessor views as f64 bit patterns decides equality. Bounded random exploration, not proof.",
          "Trusted: proptest generators, the accessor view of constructed values; ring roles asserted only where the signed area is exactly computable and non-zero.", "DESIGN.md §3 C01"),
